@@ -935,7 +935,7 @@ def check(ctx):
             finding = None
             if kind == 'roundtrip' and name == 'EUC-TW' and len(data) >= 4 and any(data[i] == 0x8E and data[i + 1] == 0xA1 for i in range(len(data) - 1)):
                 finding = 'C20-F1'
-            ctx.fail('extra-codec-' + kind, {'codec': name, 'direction': dirn, 'data': data[:60]}, what, finding)
+            ctx.fail('extra-codec-' + kind, {'codec': name, 'direction': dirn, 'data': data[:5000]}, what, finding)
     for name in EXTRA:
         ctx.nontriv(('extra', name))
 
@@ -960,7 +960,7 @@ def check(ctx):
         ctx.count('iconv:doublings:%d' % grows)
         if grows or real.split(' ')[1] == 'err':
             ctx.nontriv(('iconv', payload[0], payload[1], tuple(payload[2][:40]), len(payload[2])))
-        what = {'direction': payload[0], 'encoding': payload[1], 'len': len(payload[2]), 'data': payload[2][:60]}
+        what = {'direction': payload[0], 'encoding': payload[1], 'len': len(payload[2]), 'data': payload[2][:5000]}
         if m != real:
             ctx.disagree('iconv-loop', what, m[:300], real[:300])
         for pr in problems:
@@ -1077,3 +1077,50 @@ def check(ctx):
              'a sample of languages, vs a direct per-character encode and vs the model. '
              'non-trivial = distinct case with an error position, a doubling, a classification other than unknown, or a reported character',
         extra_obligations=0, extra_discharged=0)
+
+
+def replay(ctx, path):
+    """re-evaluate the failing inputs of a replay file on the implementation (the property's own oracles)"""
+    obj = json.load(open(path))
+    E = setup()
+    still = 0
+    items = obj.get('failing_inputs') or []
+    if not items:
+        print('replay: %s names no failing input (broken tie): run the check itself' % path)
+        return 1
+    lc = None
+    for f in items:
+        kind, inp = f['kind'], f['input']
+        why = None
+        if kind.startswith('extra-codec-'):
+            if inp['direction'] == 'D':
+                fails, _ = oracle_decode_items((inp['codec'], [bytes(inp['data'])]))
+            else:
+                fails, _ = oracle_encode_items((inp['codec'], [''.join(map(chr, inp['data']))]))
+            why = fails[0][3] if fails else None
+        elif kind.startswith('iconv-'):
+            real, line, problems, grows, n = traced_iconv((inp['direction'], inp['encoding'], inp['data']))
+            r = real.split(' ')
+            if r[1] == 'crash':
+                why = 'raised ' + r[2]
+            elif r[1] == 'err' and not 0 <= int(r[2]) < int(r[3]) <= n:
+                why = 'start=%s end=%s len=%d' % (r[2], r[3], n)
+            elif grows > 2 and inp['encoding'] not in STATEFUL:
+                why = 'the buffer was doubled %d times' % grows
+        elif kind.startswith('unrepresentable-'):
+            if lc is None:
+                lc = language_characters()
+            tag = inp['language']
+            lang, _, mod = tag.partition('@')
+            key = 'characters' + ('@' + mod if mod else '')
+            why = unrep_case((tag, key, lc[lang][key], inp['charset']))[2]
+        elif kind.startswith('charmap-'):
+            r = real_codec_call(inp['codec'], inp['direction'], inp['data'])
+            why = r if r.startswith('crash') else None
+        else:
+            name = inp['charset']
+            fails, _ = oracle_classification((name, pristine_lookup([name])[0]))
+            why = '; '.join(w for (_, w, _) in fails) or None
+        print('%s %s: %s' % ('FAILS' if why else 'passes', json.dumps(inp)[:200], why or ''))
+        still += bool(why)
+    return 1 if still else 0
